@@ -172,3 +172,56 @@ Proof.
   rewrite !q_dot_vadd_r by (rewrite !q_matvec_length; lia).
   rewrite (HS u v Hu Hv). rewrite (q_dot_comm (qmatvec P u) v). ring.
 Qed.
+
+(* ---- A^T P A as assembled by [atpa] acts as the composition (symmetric P) ---- *)
+Lemma q_dot_nil_r x : qdot x [] = 0.
+Proof. destruct x; reflexivity. Qed.
+
+Lemma map_const_vzero (s : list nat) : map (fun _ : nat => (0 : Qc)) s = qvzero (length s).
+Proof. induction s as [|a s IH]; [reflexivity|]. cbn [map length qvzero vzero repeat]. f_equal. exact IH. Qed.
+
+Lemma list_as_nth_map (row : list Qc) : row = map (fun i => nth i row 0) (seq 0 (length row)).
+Proof.
+  induction row as [|a row IH]; [reflexivity|].
+  cbn [length seq map nth]. f_equal. rewrite <- seq_shift, map_map. exact IH.
+Qed.
+
+Lemma vadd_vscale_map (b : Qc) (f g : nat -> Qc) (s : list nat) :
+  qvadd (qvscale b (map f s)) (map g s) = map (fun i => b * f i + g i) s.
+Proof. induction s as [|a s IH]; [reflexivity|]. cbn [map qvscale vscale qvadd vadd]. f_equal. exact IH. Qed.
+
+Lemma q_mattvec_as_cols n A w : wf_mat n A ->
+  qmattvec n A w = map (fun i => qdot (col 0 A i) w) (seq 0 n).
+Proof.
+  intros HA; revert w; induction HA as [|row A Hr HA IH]; intros w.
+  - cbn [qmattvec mattvec col map]. rewrite <- (seq_length n 0) at 1. rewrite <- map_const_vzero.
+    apply map_ext. intros i. reflexivity.
+  - destruct w as [|b w].
+    + cbn [qmattvec mattvec]. rewrite <- (seq_length n 0) at 1. rewrite <- map_const_vzero.
+      apply map_ext. intros i. symmetry. apply q_dot_nil_r.
+    + cbn [qmattvec mattvec].
+      change (mattvec 0 Qcplus Qcmult n A w) with (qmattvec n A w).
+      change (vadd Qcplus ?a ?c) with (qvadd a c). change (vscale Qcmult ?a ?c) with (qvscale a c).
+      rewrite IH. rewrite (list_as_nth_map row) at 1. rewrite Hr.
+      rewrite vadd_vscale_map. apply map_ext. intros i.
+      cbn [col map qdot dot]. change (dot 0 Qcplus Qcmult ?a ?c) with (qdot a c).
+      change (map (fun row0 : list Qc => nth i row0 0) A) with (col 0 A i). ring.
+Qed.
+
+Lemma q_col_length (A : list (list Qc)) i : length (col 0 A i) = length A.
+Proof. unfold col. apply map_length. Qed.
+
+Lemma q_atpa_matvec m n A P x : wf_mat n A -> length A = m -> wf_mat m P -> length P = m -> q_sym m P ->
+  length x = n ->
+  qmatvec (atpa n A P) x = qmattvec n A (qmatvec P (qmatvec A x)).
+Proof.
+  intros HA HAm HP HPm HS Hx.
+  rewrite (q_mattvec_as_cols n A (qmatvec P (qmatvec A x)) HA).
+  unfold atpa. change (qmatvec (map ?f ?s) x) with (map (fun row => qdot row x) (map f s)).
+  rewrite map_map. apply map_ext. intros i.
+  rewrite q_dot_comm. rewrite <- (q_adjoint n A x _ HA Hx).
+  rewrite (HS (qmatvec A x) (col 0 A i)).
+  - apply q_dot_comm.
+  - rewrite q_matvec_length. exact HAm.
+  - rewrite q_col_length. exact HAm.
+Qed.
